@@ -379,3 +379,243 @@ Section Life.
     intros Hal Hk. destruct (refine_init h Hal) as [-> _]. apply machine_once_in_order; assumption.
   Qed.
 End Life.
+
+(* ---------- declarative sufficient conditions for [allowed_run] and [keeps_run] ---------- *)
+Section Declarative.
+  Variable s : N.
+  Variable p : Z.
+
+  Notation is_rec := (is_rec s p).
+  Notation is_login_p := (is_login_p p).
+
+  (* a LOGIN-type record of session s with a parsable pid *)
+  Definition login_rec_of_s (o : top) : bool :=
+    match o with
+    | Audit ev _ => ev_of_s s ev && is_login (a_type ev) && match a_pid ev with Some _ => true | None => false end
+    | _ => false
+    end.
+
+  Definition opens_other_session (o : top) : bool :=
+    match o with Audit ev _ => other_rec s p ev | _ => false end.
+
+  (* The uniqueness discipline of C01 seen from (s, p), as a predicate on the history alone:
+     - LOGIN records of s carry pid p;                 (session ids identify one sshd process)
+     - there is at most one of them;                   (session ids are not reused)
+     - no other session's LOGIN record carries pid p;  (pids are not reused)
+     - at most one valid login with pid p is delivered (each sshd pid logs in once). *)
+  Record wf_session (h : list top) : Prop := {
+    wf_pid : forall o, In o h -> login_rec_of_s o = true -> is_rec o = true;
+    wf_one_rec : length (filter is_rec h) <= 1;
+    wf_no_other : forall o, In o h -> opens_other_session o = false;
+    wf_one_login : length (filter is_login_p h) <= 1
+  }.
+
+  Lemma rec_seen_count h : rec_seen s p h = true -> 1 <= length (filter is_rec h).
+  Proof.
+    unfold rec_seen. induction h as [|o r IH]; cbn; [discriminate|].
+    destruct (is_rec o); cbn; [lia|exact IH].
+  Qed.
+
+  Lemma login_seen_count h : login_seen p h = true -> 1 <= length (filter is_login_p h).
+  Proof.
+    unfold login_seen. induction h as [|o r IH]; cbn; [discriminate|].
+    destruct (is_login_p o); cbn; [lia|exact IH].
+  Qed.
+
+  (* which phase implies which half has been seen *)
+  Definition K (ph : TrackerSpec.phase) (h : list top) : Prop :=
+    match ph with
+    | PClean => True
+    | PHeld _ _ | PBound _ | PEnded => rec_seen s p h = true
+    | PParked _ => login_seen p h = true
+    end /\
+    match ph with PBound _ | PEnded => True | _ => True end.
+
+  Lemma K_step ph h o : K ph h -> K (fst (pstep s p ph o)) (h ++ [o]).
+  Proof.
+    intros [HK _]. split; [|destruct (fst (pstep s p ph o)); exact I].
+    destruct o as [l c|ev now|t|t]; cbn [pstep].
+    - destruct (login_p p l) eqn:El.
+      + destruct ph as [|a evs|l0|l0|]; cbn [fst].
+        * rewrite login_seen_snoc. cbn. rewrite El. apply orb_true_r.
+        * destruct (has_disp evs); cbn; rewrite rec_seen_snoc, HK; reflexivity.
+        * rewrite login_seen_snoc, HK. reflexivity.
+        * rewrite rec_seen_snoc, HK. reflexivity.
+        * rewrite rec_seen_snoc, HK. reflexivity.
+      + cbn [fst]. destruct ph; try exact I; rewrite ?rec_seen_snoc, ?login_seen_snoc, HK; reflexivity.
+    - destruct (ev_of_s s ev) eqn:Eev.
+      + destruct ph as [|a evs|l0|l0|].
+        * destruct (TrackerSpec.is_rec_p p ev) eqn:Er; cbn [fst]; [|exact I].
+          rewrite rec_seen_snoc. cbn. rewrite Eev, Er. apply orb_true_r.
+        * cbn [fst]. rewrite rec_seen_snoc, HK. reflexivity.
+        * destruct (TrackerSpec.is_rec_p p ev) eqn:Er; cbn [fst].
+          -- rewrite rec_seen_snoc. cbn. rewrite Eev, Er. apply orb_true_r.
+          -- rewrite login_seen_snoc, HK. reflexivity.
+        * destruct (is_disp (a_type ev)); cbn [fst]; rewrite rec_seen_snoc, HK; reflexivity.
+        * cbn [fst]. rewrite rec_seen_snoc, HK. reflexivity.
+      + cbn [fst]. destruct ph; try exact I; rewrite ?rec_seen_snoc, ?login_seen_snoc, HK; reflexivity.
+    - destruct ph as [|a evs|l0|l0|]; cbn [fst]; try exact I; try (rewrite ?rec_seen_snoc, ?login_seen_snoc, HK; reflexivity).
+      destruct (a <? t)%Z; cbn [fst]; [exact I|]. rewrite rec_seen_snoc, HK. reflexivity.
+    - destruct ph as [|a evs|l0|l0|]; cbn [fst]; try exact I; try (rewrite ?rec_seen_snoc, ?login_seen_snoc, HK; reflexivity).
+      destruct (l_at l0 <? t)%Z; cbn [fst]; [exact I|]. rewrite login_seen_snoc, HK. reflexivity.
+  Qed.
+
+  Lemma filter_snoc {A} (f : A -> bool) l x : filter f (l ++ [x]) = filter f l ++ (if f x then [x] else []).
+  Proof. rewrite filter_app. cbn. destruct (f x); reflexivity. Qed.
+
+  (* one step is allowed when the history extended by it is still well-formed *)
+  Lemma allowed_from_wf ph h o : K ph h -> wf_session (h ++ [o]) -> TrackerSpec.allowed s p ph o.
+  Proof.
+    intros [HK _] [Hpid Hone Hno Hlog].
+    assert (Hin : In o (h ++ [o])) by (apply in_or_app; right; left; reflexivity).
+    destruct o as [l c|ev now|t|t]; cbn [TrackerSpec.allowed]; try exact I.
+    - (* RemoteLogin *)
+      destruct ph as [|a evs|l0|l0|]; try exact I.
+      destruct (login_p p l) eqn:El; [|reflexivity]. exfalso.
+      pose proof (login_seen_count h HK) as H1. rewrite filter_snoc, app_length in Hlog. cbn in Hlog.
+      rewrite El in Hlog. cbn in Hlog. lia.
+    - (* Audit *)
+      destruct (ev_of_s s ev) eqn:Eev.
+      + assert (Hrec : is_login (a_type ev) = true -> a_pid ev <> None -> TrackerSpec.is_rec_p p ev = true).
+        { intros Ht Hp. specialize (Hpid _ Hin). unfold login_rec_of_s, TrackerLife.is_rec in Hpid.
+          rewrite Eev, Ht in Hpid. cbn [andb] in Hpid.
+          destruct (a_pid ev) as [q|] eqn:Eq; [|congruence]. apply Hpid. reflexivity. }
+        assert (Hpidp : is_login (a_type ev) = true -> a_pid ev = None \/ a_pid ev = Some p).
+        { intros Ht. destruct (a_pid ev) as [q|] eqn:Eq; [|left; reflexivity]. right.
+          assert (Hr : TrackerSpec.is_rec_p p ev = true) by (apply Hrec; [exact Ht|congruence]).
+          unfold TrackerSpec.is_rec_p in Hr. rewrite Ht, Eq in Hr. cbn in Hr. apply Z.eqb_eq in Hr. congruence. }
+        destruct ph as [|a evs|l0|l0|]; try exact I; try exact Hpidp.
+        (* PEnded: a second LOGIN record of s would be the second one *)
+        destruct (is_login (a_type ev)) eqn:Ht; [|left; reflexivity].
+        destruct (a_pid ev) as [q|] eqn:Eq; [|right; reflexivity]. exfalso.
+        assert (Hr : TrackerSpec.is_rec_p p ev = true) by (apply Hrec; [reflexivity|congruence]).
+        pose proof (rec_seen_count h HK) as H1. rewrite filter_snoc, app_length in Hone. cbn in Hone.
+        rewrite Eev, Hr in Hone. cbn in Hone. lia.
+      + specialize (Hno _ Hin). cbn in Hno. destruct ph; try exact I; exact Hno.
+  Qed.
+
+  Lemma wf_session_prefix h o : wf_session (h ++ [o]) -> wf_session h.
+  Proof.
+    intros [A B C D]. constructor.
+    - intros x Hx. apply A. apply in_or_app. left. exact Hx.
+    - rewrite filter_snoc, app_length in B. lia.
+    - intros x Hx. apply C. apply in_or_app. left. exact Hx.
+    - rewrite filter_snoc, app_length in D. lia.
+  Qed.
+
+  Lemma allowed_run_snoc ph h o :
+    allowed_run s p ph (h ++ [o]) <-> allowed_run s p ph h /\ TrackerSpec.allowed s p (fst (prun s p ph h)) o.
+  Proof. rewrite allowed_run_app. cbn. tauto. Qed.
+
+  Lemma K_run h : K (fst (prun s p PClean h)) h.
+  Proof.
+    induction h as [|o h IH] using rev_ind; [split; exact I|].
+    rewrite prun_app. destruct (prun s p PClean h) as [ph out]. cbn [fst] in *. cbn [prun].
+    pose proof (K_step ph h o IH) as HK. destruct (pstep s p ph o) as [ph1 o1]. cbn [fst] in *. exact HK.
+  Qed.
+
+  (* the well-formed histories of C01 satisfy the side conditions of the refinement *)
+  Theorem wf_session_allowed h : wf_session h -> allowed_run s p PClean h.
+  Proof.
+    induction h as [|o h IH] using rev_ind; intros Hwf; [exact I|].
+    apply allowed_run_snoc. split; [apply IH; eapply wf_session_prefix; exact Hwf|].
+    apply (allowed_from_wf _ h); [apply K_run|exact Hwf].
+  Qed.
+
+  (* ---------- no cleanup call discards a waiting half: a condition on the history alone ---------- *)
+
+  (* every cleanup cut-off in the history is not later than the arrival time of the LOGIN record
+     of s (for session cleanup) / the logged-at time of the login with pid p (for login cleanup) *)
+  Definition no_late_cleanup (h : list top) : Prop :=
+    (forall t ev now, In (CleanSess t) h -> In (Audit ev now) h -> is_rec (Audit ev now) = true -> (t <= now)%Z) /\
+    (forall t l c, In (CleanLogins t) h -> In (RemoteLogin l c) h -> login_p p l = true -> (t <= l_at l)%Z).
+
+  Definition Kt (ph : TrackerSpec.phase) (h : list top) : Prop :=
+    match ph with
+    | PHeld a _ => exists ev, In (Audit ev a) h /\ is_rec (Audit ev a) = true
+    | PParked l => exists c, In (RemoteLogin l c) h /\ login_p p l = true
+    | _ => True
+    end.
+
+  Lemma Kt_mono ph h o : Kt ph h -> Kt ph (h ++ [o]).
+  Proof.
+    destruct ph as [|a evs|l0|l0|]; cbn; try tauto.
+    - intros (ev & H1 & H2). exists ev. split; [apply in_or_app; left; exact H1|exact H2].
+    - intros (c & H1 & H2). exists c. split; [apply in_or_app; left; exact H1|exact H2].
+  Qed.
+
+  Lemma Kt_step ph h o : Kt ph h -> Kt (fst (pstep s p ph o)) (h ++ [o]).
+  Proof.
+    intros HK.
+    assert (Hlast : In o (h ++ [o])) by (apply in_or_app; right; left; reflexivity).
+    destruct o as [l c|ev now|t|t]; cbn [pstep].
+    - destruct (login_p p l) eqn:El.
+      + destruct ph as [|a evs|l0|l0|]; cbn [fst].
+        * exists c. split; [exact Hlast|exact El].
+        * destruct (has_disp evs); exact I.
+        * apply Kt_mono. exact HK.
+        * exact I.
+        * exact I.
+      + cbn [fst]. apply Kt_mono. exact HK.
+    - destruct (ev_of_s s ev) eqn:Eev.
+      + destruct ph as [|a evs|l0|l0|].
+        * destruct (TrackerSpec.is_rec_p p ev) eqn:Er; cbn [fst]; [|exact I].
+          exists ev. split; [exact Hlast|]. cbn. rewrite Eev, Er. reflexivity.
+        * cbn [fst]. destruct HK as (e0 & H1 & H2). exists e0. split; [apply in_or_app; left; exact H1|exact H2].
+        * destruct (TrackerSpec.is_rec_p p ev); cbn [fst]; [exact I|]. apply (Kt_mono (PParked l0)). exact HK.
+        * destruct (is_disp (a_type ev)); exact I.
+        * exact I.
+      + cbn [fst]. apply Kt_mono. exact HK.
+    - destruct ph as [|a evs|l0|l0|]; cbn [fst]; try exact I; try (apply Kt_mono; exact HK).
+      destruct (a <? t)%Z; cbn [fst]; [exact I|]. apply (Kt_mono (PHeld a evs)). exact HK.
+    - destruct ph as [|a evs|l0|l0|]; cbn [fst]; try exact I; try (apply Kt_mono; exact HK).
+      destruct (l_at l0 <? t)%Z; cbn [fst]; [exact I|]. apply (Kt_mono (PParked l0)). exact HK.
+  Qed.
+
+  Lemma Kt_run h : Kt (fst (prun s p PClean h)) h.
+  Proof.
+    induction h as [|o h IH] using rev_ind; [exact I|].
+    rewrite prun_app. destruct (prun s p PClean h) as [ph out]. cbn [fst] in *. cbn [prun].
+    pose proof (Kt_step ph h o IH) as HK. destruct (pstep s p ph o) as [ph1 o1]. cbn [fst] in *. exact HK.
+  Qed.
+
+  Lemma keeps_run_snoc ph h o :
+    keeps_run s p ph (h ++ [o]) <-> keeps_run s p ph h /\ keeps (fst (prun s p ph h)) o.
+  Proof. rewrite keeps_run_app. cbn. tauto. Qed.
+
+  Lemma no_late_prefix h o : no_late_cleanup (h ++ [o]) -> no_late_cleanup h.
+  Proof.
+    intros [A B]. split.
+    - intros t ev now H1 H2 H3. apply (A t ev now); try (apply in_or_app; left); assumption.
+    - intros t l c H1 H2 H3. apply (B t l c); try (apply in_or_app; left); assumption.
+  Qed.
+
+  Theorem no_late_cleanup_keeps h : no_late_cleanup h -> keeps_run s p PClean h.
+  Proof.
+    induction h as [|o h IH] using rev_ind; intros Hn; [exact I|].
+    apply keeps_run_snoc. split; [apply IH; eapply no_late_prefix; exact Hn|].
+    pose proof (Kt_run h) as HK. destruct Hn as [A B].
+    assert (Hlast : In o (h ++ [o])) by (apply in_or_app; right; left; reflexivity).
+    destruct o as [l c|ev now|t|t]; cbn [keeps]; try exact I;
+      destruct (fst (prun s p PClean h)) as [|a evs|l0|l0|]; try exact I; cbn [Kt] in HK.
+    - destruct HK as (e0 & H1 & H2). apply (A t e0 a); [exact Hlast|apply in_or_app; left; exact H1|exact H2].
+    - destruct HK as (c & H1 & H2). apply (B t l0 c); [exact Hlast|apply in_or_app; left; exact H1|exact H2].
+  Qed.
+End Declarative.
+
+Lemma hypotheses_from_history (s : N) (p : Z) (h : list top) :
+  (wf_session s p h -> allowed_run s p PClean h) /\
+  (no_late_cleanup s p h -> keeps_run s p PClean h).
+Proof. split; [apply wf_session_allowed|apply no_late_cleanup_keeps]. Qed.
+
+Lemma once_in_order_wf (s : N) (p : Z) (h : list top) :
+  wf_session s p h -> no_late_cleanup s p h ->
+  let out := projs s (outs h) in
+  let E := events_from_rec s p h in
+  (rec_seen s p h && login_seen p h = false -> out = []) /\
+  (rec_seen s p h && login_seen p h = true ->
+     exists l k, In_login l h /\ login_p p l = true /\
+                 out = map (pair l) (firstn k E) /\ length (take_until_disp E) <= k /\ k <= length E).
+Proof.
+  intros Hw Hc. apply once_in_order; [apply wf_session_allowed|apply no_late_cleanup_keeps]; assumption.
+Qed.
